@@ -37,7 +37,7 @@ def run_model(chk, P, invs, label, props=(), coverage=True, count=True):
 def models(chk, tier, invs=INVS, props=PROPS):
     """(hmax, K, R, alphabet): the complete schedule costs 5 / 16 / 22 evaluations for h_max = 1 / 2 / 3"""
     grid = [(1, 2, 8, [0, 1, 2]), (2, 2, 13, [0, 1]), (2, 2, 19, [1]), (3, 2, 25, [0]), (1, 3, 7, [-1, 0])] if tier == "quick" else \
-           [(1, 2, 8, [-1, 0, 1, 2]), (2, 2, 17, [0, 1]), (2, 3, 14, [0, 1]), (3, 2, 14, [0, 1]), (3, 2, 25, [1]), (4, 2, 50, [0]), (1, 5, 7, [0, 1])]
+           [(1, 2, 8, [-1, 0, 1, 2]), (2, 2, 17, [0, 1]), (2, 3, 14, [0, 1]), (3, 2, 14, [0, 1]), (3, 2, 25, [1]), (4, 2, 32, [0]), (1, 5, 7, [0, 1])]
     ended = False
     for (hmax, K, R, rew) in grid:
         label = "stro_h%d_K%d_R%d_%d" % (hmax, K, R, len(rew))
